@@ -39,7 +39,7 @@ PROP = dict(
         "ComparisonSeries.ratios (the bootstrap replicates) are unexported, so 'low lies between the two middle replicates' is not checked directly",
     ],
     units=[
-        R("series", "A", "./c18", "TestC18Series", (2000, 8), (20000, 16)),
+        R("series", "A", "./c18", "TestC18Series", (2000, 16), (20000, 16)),
         R("bootstrap", "A", "./c18", "TestC18Bootstrap", (8000, 4), (40000, 16)),
         R("dates", "A", "./c18", "TestC18Dates", (40000, 4), (200000, 16)),
     ],
